@@ -1,10 +1,12 @@
 package core
 
 import (
+	"context"
 	"encoding/json"
 	"fmt"
 	"strings"
 	"testing"
+	"time"
 
 	erpc "github.com/henrylee2cn/erpc/v6"
 	"github.com/henrylee2cn/erpc/v6/socket"
@@ -32,6 +34,9 @@ type c03Case struct {
 	OneShot bool // all frames in one write (pipelined)
 	Chunks  []int
 	Cycle   bool
+	// before the frames arrive the serving session itself sent messages with a context that
+	// has a deadline, and that deadline has passed since: none | push | call
+	PriorDeadline string
 }
 
 var callStages = []string{"PostReadCallHeader", "PreReadCallBody", "PostReadCallBody"}
@@ -78,6 +83,7 @@ func genC03(t *rapid.T, protos []vt.NamedProto) c03Case {
 		c.Frames = append(c.Frames, f)
 	}
 	c.OneShot = rapid.Bool().Draw(t, "oneshot")
+	c.PriorDeadline = rapid.SampledFrom([]string{"none", "none", "none", "push", "call"}).Draw(t, "priordeadline")
 	c.Chunks, c.Cycle = vt.Chunks(t, "chunks")
 	return c
 }
@@ -234,6 +240,25 @@ func runC03(c c03Case, protos []vt.NamedProto) []string {
 	var fails []string
 	failf := func(format string, a ...interface{}) { fails = append(fails, fmt.Sprintf(format, a...)) }
 
+	priorFrames := 0
+	if c.PriorDeadline != "none" {
+		// what the session sent earlier - and with which deadline - has no bearing on the replies it owes now
+		ctx, cancel := context.WithTimeout(context.Background(), 2*time.Millisecond)
+		if c.PriorDeadline == "push" {
+			sess.Push("/client/note", &LibArg{Rid: "prior"}, erpc.WithContext(ctx))
+		} else {
+			sess.AsyncCall("/client/do", &LibArg{Rid: "prior"}, new(LibRes), make(chan erpc.CallCmd, 1), erpc.WithContext(ctx))
+		}
+		raw.WaitFrames(1)
+		priorFrames = len(raw.Frames())
+		if c.PriorDeadline == "call" && priorFrames > 0 {
+			// answer it, so that nothing of it is left pending
+			raw.Send(vt.Msg{Seq: raw.Frames()[0].Seq, Mtype: erpc.TypeReply, Codec: 'j', Body: []byte(`{"Rid":"prior"}`)})
+		}
+		<-ctx.Done()
+		cancel()
+		time.Sleep(200 * time.Microsecond)
+	}
 	hasKiller := false
 	var releases []func()
 	for _, f := range c.Frames {
@@ -307,6 +332,9 @@ func runC03(c c03Case, protos []vt.NamedProto) []string {
 		failf("%s", vt.Hang("disconnect (after a frame of unsupported type / unreadable frame, or after Close)"))
 	}
 	frames := raw.Frames()
+	if priorFrames <= len(frames) {
+		frames = frames[priorFrames:] // the session's own earlier message(s)
+	}
 
 	// count replies per seq; nothing but REPLY frames may ever be written by the server here
 	replies := map[int32][]vt.RawFrame{}
@@ -400,7 +428,7 @@ func (c c03Case) nontrivial() bool {
 }
 
 func TestC03Dispatch(t *testing.T) {
-	rec := vt.NewRec(t, "C03", "dispatch", "a scripted raw peer sends 1-10 generated frames (type byte, route known/unknown/empty/255 bytes, body decodable/undecodable/empty, codec registered/unregistered/0, veto metadata for a pre-handler plugin, a plugin panicking at PostReadCallBody / PreWriteReply / PostWriteReply, duplicate and extreme seqs; handler behaviour return/error/panic(string,error,*Status)/gated/unmarshalable reply/reply larger than a configured 64 KiB message size limit) to a real server session, pipelined in one write or frame by frame, under a generated read chunking; reference model of dispatch decides expected replies per seq and handler invocations per request id; non-trivial = an error path or >=2 pipelined frames; distinct by the frame list")
+	rec := vt.NewRec(t, "C03", "dispatch", "a scripted raw peer sends 1-10 generated frames (type byte, route known/unknown/empty/255 bytes, body decodable/undecodable/empty, codec registered/unregistered/0, veto metadata for a pre-handler plugin, a plugin panicking at PostReadCallBody / PreWriteReply / PostWriteReply, duplicate and extreme seqs; handler behaviour return/error/panic(string,error,*Status)/gated/unmarshalable reply/reply larger than a configured 64 KiB message size limit) to a real server session (which, in two cases out of five, has itself sent a push or a call whose context deadline has passed since), pipelined in one write or frame by frame, under a generated read chunking; reference model of dispatch decides expected replies per seq and handler invocations per request id; non-trivial = an error path or >=2 pipelined frames; distinct by the frame list")
 	protos := vt.StreamProtos()
 	rapid.Check(t, func(t *rapid.T) {
 		c := genC03(t, protos)
